@@ -440,6 +440,11 @@ def attr_steps(rec):
             parts.append(f'FieldAdded("{name}", {default})')
         else:
             parts.append(f'{kind}("{name}")')
+    # one attribute per release is as legal as one attribute for all steps: split at a point that
+    # depends on the steps themselves (so every version of a family may be spelled differently)
+    k = sum(len(n) for _, n in rec.steps) % (len(parts) + 1)
+    if 0 < k < len(parts):
+        return "#[evolution(%s)] #[evolution(%s)]" % (", ".join(parts[:k]), ", ".join(parts[k:]))
     return "#[evolution(%s)]" % ", ".join(parts)
 
 
